@@ -558,7 +558,10 @@ class HierarchicalMachine(Machine):
     def add_transition(self, trigger, source, dest, conditions=None,
                        unless=None, before=None, after=None, prepare=None, **kwargs):
         if source == self.wildcard_all and dest == self.wildcard_same:
-            source = self.get_nested_state_names()
+            # get_nested_state_names returns global names; transitions are registered relative to the current scope
+            scope_depth = len(self.prefix_path)
+            source = [self.state_cls.separator.join(name.split(self.state_cls.separator)[scope_depth:])
+                      for name in self.get_nested_state_names()]
         else:
             if source != self.wildcard_all:
                 source = [self.state_cls.separator.join(self._get_enum_path(s)) if isinstance(s, Enum) else s
